@@ -272,11 +272,17 @@ func init() {
 		return m.runShell(args[1])
 	}
 	reg("(*os/exec.Cmd).CombinedOutput", func(m *Machine, fn *ssa.Function, a []Value) Value {
+		m.Env.LastStdout = nil
 		err := runCmd(m, a[0].(*Ext))
 		if err == nil {
 			err = nilErr()
 		}
-		return Tuple{Slice{}, err}
+		var out Value = Slice{}
+		if m.Env.LastStdout != nil {
+			out = m.dataToBytes(m.Env.LastStdout)
+		}
+		m.Env.LastStdout = nil
+		return Tuple{out, err}
 	})
 	reg("(*os/exec.Cmd).Output", intrinsics["(*os/exec.Cmd).CombinedOutput"])
 	reg("(*os/exec.Cmd).Run", func(m *Machine, fn *ssa.Function, a []Value) Value {
@@ -424,6 +430,29 @@ func init() {
 	// ------------------------------------------------------------ bufio (line scanner over model files)
 	reg("bufio.NewScanner", func(m *Machine, fn *ssa.Function, a []Value) Value {
 		it := a[0].(Iface)
+		if rp, isP := it.V.(*Value); isP && rp != nil && it.T != nil && strings.HasSuffix(it.T.String(), "strings.Reader") {
+			// a *strings.Reader: the lines of its string
+			st, _ := (*rp).(Struct)
+			var lines []Value
+			switch x := st[0].(type) {
+			case string:
+				if x != "" {
+					lines = toSliceV(strings.Split(strings.TrimSuffix(x, "\n"), "\n"))
+				}
+			case *sym.Str:
+				parts := m.symSplit(x, "\n").(Slice)
+				// a final newline does not start another line
+				if n := len(parts); n > 0 {
+					if ls, isS := parts[n-1].(string); isS && ls == "" {
+						parts = parts[:n-1]
+					}
+				}
+				lines = parts
+			default:
+				m.unsupported("bufio.NewScanner over a strings.Reader of %T", st[0])
+			}
+			return &Ext{Kind: "scanner", F: map[string]Value{"lines": Slice(lines), "i": int64(-1)}}
+		}
 		f, ok := it.V.(*Ext)
 		if !ok || f.Kind != "file" {
 			m.unsupported("bufio.NewScanner over %T", it.V)
@@ -579,4 +608,12 @@ func sortStrings(s []string) {
 			s[j], s[j-1] = s[j-1], s[j]
 		}
 	}
+}
+
+func toSliceV(ss []string) []Value {
+	r := make([]Value, len(ss))
+	for i, x := range ss {
+		r[i] = x
+	}
+	return r
 }
